@@ -376,7 +376,7 @@ def c11(ctx):
     return [librt_job(ctx, 'sema', [H(ctx, 'C11', 'sema_h.go')], unwind=30, deadline_s=900 if q else 3000, extra=ex), value]
 
 
-@prop('C06', level='model_checking', title='maps behave as finite maps')
+@prop('C06', level='other', title='maps behave as finite maps')
 def c06(ctx):
     q = ctx.quick
     only = ['H_map_p0_ops2', 'H_map_p7_ops1', 'H_map_p8_ops1', 'H_map_clear_refill', 'H_map_clear_regrow', 'H_map_clear_rounds', 'H_map_chain2', 'H_map_nil'] if q else None
